@@ -92,3 +92,59 @@ Example C16_total_nonvacuous :
   validate true nv_only_global = VErrs [EFcGmriNeg 0; EFcMriReq 0; EFcNone 0; EPolSchema 0]
   /\ apply_gateway nv_only_global = Panic /\ breaking nv_only_global = true.
 Proof. vm_compute. repeat split; reflexivity. Qed.
+
+(* ---------- extension: updates of an existing cluster, and the remote rate limiter ---------- *)
+
+(* an object that passes validation can be applied ON TOP OF any object that passed validation (same name), through
+   the controller's sync and ClusterInfo.Sync, and on the limiter — whatever the relation between their PEM data *)
+Theorem C16_sound_update : forall p1 p2 f1 f2 d,
+  oracle_laws f1 = true -> oracle_laws f2 = true ->
+  validate p1 f1 = VErrs [] -> validate p2 f2 = VErrs [] ->
+  apply_gateway_update f1 f2 d = Ok /\ apply_update_ctrl f1 f2 d = Ok
+  /\ apply_update_info f1 f2 d = Some Ok /\ apply_limiter_update f1 f2 = Ok.
+Proof. exact sound_update. Qed.
+Print Assumptions C16_sound_update.
+
+(* with the remote rate limiter: for ANY sequence of validated versions of an object (lower-case name), every
+   reconcile step (Sync, global-count pass, allocate round trip through the limiter server, Load) of the first
+   gateway on each version and of a second replica on the last version is Ok — no panic on either side, no refusal *)
+Theorem C16_sound_remote : forall fs,
+  Forall (fun f => exists pick, validate pick f = VErrs []) fs ->
+  Forall (fun r => round_ok r = true) (remote_rounds all_fixes true (map f_schemas fs)).
+Proof. exact sound_remote. Qed.
+Print Assumptions C16_sound_remote.
+
+(* each repair is needed: pairs of validated flow-control specs on which the unrepaired behaviour fails *)
+Theorem C16_remote_refuted_without_stale_remote_fix :
+  Forall spec_ok wit_type_change
+  /\ some_round_fails {| fx_stale_remote := false; fx_stale_status := true; fx_no_limiter := true |} wit_type_change = true.
+Proof. exact remote_refuted_without_stale_remote_fix. Qed.
+Print Assumptions C16_remote_refuted_without_stale_remote_fix.
+
+Theorem C16_remote_refuted_without_stale_status_fix :
+  Forall spec_ok wit_type_change
+  /\ existsb (fun r => match rr_alloc r with RPanic => true | _ => false end)
+       (remote_rounds {| fx_stale_remote := true; fx_stale_status := false; fx_no_limiter := true |} true wit_type_change) = true.
+Proof. exact remote_refuted_without_stale_status_fix. Qed.
+Print Assumptions C16_remote_refuted_without_stale_status_fix.
+
+Theorem C16_remote_refuted_without_no_limiter_fix :
+  Forall spec_ok wit_no_limiter
+  /\ some_round_fails {| fx_stale_remote := true; fx_stale_status := true; fx_no_limiter := false |} wit_no_limiter = true.
+Proof. exact remote_refuted_without_no_limiter_fix. Qed.
+Print Assumptions C16_remote_refuted_without_no_limiter_fix.
+
+(* non-vacuity: two accepted objects whose flow control changes type under a global strategy, three rounds all Ok *)
+Definition nv_object2 : facts :=
+  {| f_name_ok := true; f_gate := GAbsent; f_servers := [nv_ep 2; nv_ep 3]; f_cc := f_cc nv_object;
+     f_ss := {| ss_key := true; ss_cert := true; ss_ca := true; ss_pair_ok := true; ss_ca_ok := true |};
+     f_schemas := [{| s_name := 1; s_strategy := 2; s_exempt := false; s_mri := None; s_tb := Some (5, 10); s_gmri := None; s_gtb := Some (50, 100) |};
+                   {| s_name := 2; s_strategy := 3; s_exempt := false; s_mri := Some 1; s_tb := None; s_gmri := None; s_gtb := None |}];
+     f_logging_ok := true;
+     f_policies := [{| p_strategy_ok := true; p_subset := [3]; p_schema := 1; p_rules := true; p_logmode_ok := true |}] |}.
+Example C16_sound_update_nonvacuous :
+  validate true nv_object = VErrs [] /\ validate true nv_object2 = VErrs []
+  /\ oracle_laws nv_object2 = true
+  /\ apply_gateway_update nv_object nv_object2 {| d_ss_key_same := true; d_ss_cert_same := false; d_ss_ca_same := false |} = Ok
+  /\ List.length (remote_rounds all_fixes true [f_schemas nv_object; f_schemas nv_object2]) = 3%nat.
+Proof. vm_compute. repeat split; reflexivity. Qed.
